@@ -71,11 +71,16 @@ Inductive exn :=
 
 Inductive action :=
 | ASend (e : nat) (tag : nat)          (* machine.send(e, tag=tag) from inside the callback *)
-| ARaise (x : nat).
+| ARaise (x : nat)
+| AWrite (s : nat).                    (* machine.current_state_value = <value of state s>: the low-level API *)
 
 Record script := { acts : list action; ret : pyval }.
 
 Definition behaviour := cbref -> nat -> script.
+
+(* behaviours whose callbacks never assign the state themselves (the low-level API is left alone) *)
+Definition is_write (a : action) : bool := match a with AWrite _ => true | _ => false end.
+Definition no_writes (beh : behaviour) : Prop := forall cb n, existsb is_write (acts (beh cb n)) = false.
 
 
 (* the result of an executed transition is kept as (before results, on results) until it is handed
@@ -168,6 +173,7 @@ Section Engine.
         | Fuel => Fuel
         end
     | ARaise x :: _ => Exn c (XUser x)
+    | AWrite s :: r => run_acts r (set_field c (Some s))
     end.
 
   Definition run_cb (g : group) (x : ctx) (cb : cbref) (c : cfg) : res pyval :=
@@ -203,7 +209,7 @@ Section Engine.
     end.
 
   (* in-group order is left open by the documentation; it shows only when two callbacks of one group
-     execution send events, or when one raises while another one is present (under rtc=False a send
+     execution send events, or when one raises or assigns the state while another one is present (under rtc=False a send
      runs the nested event at once, so any acting callback next to another one shows it) *)
   Definition cur_script (c : cfg) (cb : cbref) : script := beh cb (count_calls cb (calls c)).
   Definition is_send (a : action) : bool := match a with ASend _ _ => true | _ => false end.
@@ -212,9 +218,10 @@ Section Engine.
     let scripts := map (cur_script c) cbs in
     let senders := length (filter (fun s => existsb is_send (acts s)) scripts) in
     let raisers := existsb (fun s => existsb is_raise (acts s)) scripts in
+    let writers := existsb (fun s => existsb is_write (acts s)) scripts in
     let actors := existsb (fun s => match acts s with [] => false | _ => true end) scripts in
     Nat.ltb 1 (length cbs)
-    && (if rm_rtc rm then Nat.ltb 1 senders || raisers else actors).
+    && (if rm_rtc rm then Nat.ltb 1 senders || raisers || writers else actors).
 
   Definition ncbs (ws : list wrapper) : nat := length (flat_map w_cbs ws).
 
